@@ -23,6 +23,19 @@ def run(ctx):
                % (pos, row.get("b"), row.get("from"), row.get("res"), row.get("hang"), row.get("panic"),
                   row.get("crash", "")[:300]),
                {"row": row, "driver": "TestVerifCandidate", "row_index": i})
+    # the call site: whatever performSwitchover promotes for a "switch away from X" request is never X, also when the
+    # request is resumed after the recorded master has already moved (manager cut right after the master was published)
+    from tools import cluster
+    rows7, fails7, r7 = vlib.rows_check(ctx, "internal/app", "^TestVerifC07$", "PromoRows",
+                                        env={"VERIF_RUNS": "45" if ctx.quick else "100000", "VERIF_CUTS_PER_BASE": "4" if ctx.quick else "1000",
+                                             "VERIF_FULL": "" if ctx.quick else "1"},
+                                        timeout=14000, shards=16, chunk=3000, par=8, cfg="PromoRows_C14.cfg")
+    meta7 = cluster.load_meta(ctx)
+    for name, i, row in fails7:
+        v.fail(name, {"site": "performSwitchover", "request": row.get("cause")},
+               "promotion of %s by %s for a request away from %s (scenario %s)" % (row["p"], row["by"], row["from"], row["scn"]),
+               {"scenario": meta7["scenarios"].get(row["scn"]), "row": {k: row[k] for k in row if k != "hosts"}})
+    promos_from = sum(1 for x in rows7 if x["kind"] == "promo" and x.get("from"))
     nontriv = len({str((x["pos"], x["b"], x["from"])) for x in rows if len(x["pos"]) >= 2})
     cov = {
         "states": mc.distinct + r.distinct, "transitions": mc.generated + r.generated,
@@ -31,6 +44,7 @@ def run(ctx):
                 "(chain and incomparable) x excluded host x bounds {0,1,60}; random lists of 3-5 over a finer grid; "
                 "non-trivial = at least two positions; distinct counted on (positions, bound, from)",
         "samples": [rows[len(rows) // 7], rows[len(rows) // 2], rows[-1]],
+        "call_site_promotions_with_from": promos_from, "call_site_runs": meta7["runs"],
         "exhaustive": True,
         "model_conformance": {"rows_equal_to_algorithm_model": len(rows) - drift, "drift": drift},
         "algorithm_model_states": mc.distinct,
